@@ -40,6 +40,7 @@ class If(Operator):
                 raise SemanticError(
                     "1-1-9-11",
                     op=cls.op,
+                    name=condition.name,
                     type=SCALAR_TYPES_CLASS_REVERSE[condition.data_type],
                 )
             if left.data_type == Null or right.data_type == Null:
